@@ -514,12 +514,26 @@ func (e *escaper) escapeTree(c context, node parse.Node, name string, line int) 
 		// with different top level templates, or clone if necessary.
 		dt := e.template(dname)
 		if dt == nil {
+			// Derive from the tree as parsed: once name itself has been
+			// escaped (for the text context) commit has rewritten t.Tree.
+			src := e.ns.pristine[name]
+			if src == nil {
+				src = t.Tree
+			}
 			dt = template.New(dname)
-			dt.Tree = t.Tree.Copy()
+			dt.Tree = src.Copy()
 			dt.Tree.Name = dname
 			e.derived[dname] = dt
 		}
 		t = dt
+	} else if e.ns.pristine[name] == nil {
+		// First analysis of name in its own right: nothing has edited its
+		// tree yet. Keep a copy for contexts that need a derived template
+		// later.
+		if e.ns.pristine == nil {
+			e.ns.pristine = make(map[string]*parse.Tree)
+		}
+		e.ns.pristine[name] = t.Tree.Copy()
 	}
 	return e.computeOutCtx(c, t), dname
 }
